@@ -331,6 +331,33 @@ def check(prop, tier, seed):
     for p, sig, detail in res["viol"]:
         if p == prop:
             v.violation(sig, detail)
+    sub = {}
+    # tools with shared or concurrent state have specifications of their own; their engines
+    # contribute what concerns this property (groupby: GroupBy.tla, tee children: Tee.tla)
+    if prop in ("C04", "C05", "C06"):
+        from . import eng_groupby  # noqa: PLC0415
+        gviol, gtot, _ = eng_groupby.collect(tier, [prop])
+        for p, sig, detail in gviol:
+            if p == prop:
+                v.violation(sig, detail)
+        sub["groupby"] = gtot
+    if prop in ("C01", "C04", "C06"):
+        from . import eng_tee  # noqa: PLC0415
+        from .report import SubVerdict  # noqa: PLC0415
+
+        def tee_map(sig, d):
+            tail = sig.split("/", 1)[1]
+            if prop == "C01" and ("recv-rejected" in sig or "end-rejected" in sig or "fetch-rejected" in sig):
+                return "C01/" + tail
+            if prop == "C04" and ("quiesce-rejected" in sig or "srcclose-rejected" in sig or "aclose" in sig):
+                return "C04/" + tail
+            if prop == "C06" and ("failed-rejected" in sig or ("error-" in sig and "aclose" not in sig)):
+                return "C06/" + tail
+            return None
+
+        sv = SubVerdict(v, tee_map, "tee")
+        eng_tee.check("C09", "mini", seed, into=sv)
+        sub["tee"] = {k: (sv.coverage_out or {}).get(k) for k in ("states", "transitions", "edge_cover_paths", "traces_validated_by_TLC_against_TeeObs")}
     if prop == "C19":
         L = tm.load_lib()
 
@@ -356,6 +383,6 @@ def check(prop, tier, seed):
         "rule": "every leaf of the ToolMachine state tree (tool x parameters x data x consumer prefix x fault position) "
                 "is one case; non-trivial = at least one item pulled or one user callable invoked; distinct by (cfg, consumer steps, fault, last event)",
         "exhaustive": True, "tlc_runs": stats["tlc_runs"], "tlc_wall_s": round(stats["tlc_wall"], 1),
-        "tools": tools, "case_counts": res["n"],
+        "tools": tools, "case_counts": res["n"], "sub_engines": sub,
         "checker_cmd": "tlc -workers 16 -config <generated> spec/ToolMachine.tla (INVARIANTs: " + ", ".join(INVARIANTS) + ")",
     })
